@@ -73,6 +73,7 @@ type World struct {
 	P           url.Parser // nil => package-level functions (the default parser)
 	Cfg2        *Config
 	guard       bool // run library calls on a helper goroutine and detect blocking (C02)
+	listBytes   int  // bytes held by all parameter lists alive in the world (part of every statement budget)
 	// Ent: URLs that share one parameter list because the caller asked for it
 	// (u.SetSearchParams(v.SearchParams())): URL id -> group. Isolation is not asked within a group.
 	Ent map[int]int
@@ -372,6 +373,11 @@ func (w *World) execInline(i int, op Op) (ev Event) {
 			argLen += len(w.Cur[sh.Of].Href)
 		}
 	}
+	// What an operation may have to walk is not only its arguments and the serialization of its
+	// target: a parameter list can hold far more than the query of the URL it belongs to (a list
+	// that was replaced through SetSearchParams keeps its pairs; an adopted list is another URL's).
+	// All pairs alive in the world count.
+	argLen += w.listBytes
 	if !w.sched {
 		rt.Count = 0
 		rt.Limit = stepLimit(argLen)
@@ -781,10 +787,15 @@ func (w *World) refresh() (panicked string) {
 		}
 		w.Cur[id] = o
 	}
+	w.listBytes = 0
 	for id, sh := range w.S {
 		// one public read first: an implementation is free to synchronise the list lazily on access,
 		// and only what public methods show counts; the reflection read then sees what they see
-		w.CurL[id] = readListSynced(sh.SP)
+		l := readListSynced(sh.SP)
+		w.CurL[id] = l
+		for _, p := range l {
+			w.listBytes += len(p.Name) + len(p.Value) + 2
+		}
 	}
 	return ""
 }
